@@ -5,6 +5,7 @@ import HdVerif.Proofs.VolumeOnto
 import HdVerif.Proofs.VolumeTie
 import HdVerif.Proofs.VolumeAccess
 import HdVerif.Proofs.VolumeArgs
+import HdVerif.Proofs.VolumeLabels
 /-! # C08  Volume operations never move a voxel in physical space
 
 Property theorems only (helper lemmas: `Proofs/Volume.lean`; model: `Model/Volume.lean`).
@@ -517,7 +518,7 @@ theorem bridge_permutation (g : Geom) (q : Perm) (hq : PermValid q) :
 
 /-! ## non-vacuity -/
 
-/-- a left-handed, rotated (axis-swapping), anisotropic geometry of shape 4 × 3 × 5 -/
+/-- a rotated (axis-swapping), anisotropic geometry of shape 4 × 3 × 5 -/
 def g0 : Geom :=
   { c0 := ⟨0, 3 / 2, 0⟩, c1 := ⟨-1 / 2, 0, 0⟩, c2 := ⟨0, 0, 2⟩, t := ⟨10, -20, 5 / 4⟩, n0 := 4, n1 := 3, n2 := 5 }
 
@@ -825,6 +826,19 @@ theorem random_permute_spec (axes drawn : List Int) (hv : randomAxesOk axes = tr
     (hr : isRearrangement axes drawn = true) : randomPermuteGood axes drawn = true :=
   randomPermute_good hv hr
 
+/-! ## channel descriptors over histories -/
+
+/-- **Channel descriptors follow the data over every history** (no `with_array`; at most two channel dimensions — the bound
+of the property — with one descriptor entry per dimension): for every channel cell `c` of the final volume, the cell it
+shows in the original is `historyChanSrc … c` (`history_values_mixed`), that cell is a cell of the original (right rank), and
+every (descriptor, value) label the final volume attaches to `c` is a label the original attaches to that cell — by induction
+over the history (selection with / without keepdims, permutation, spatial operations mixed freely). -/
+theorem history_descriptors_follow_data (coord : Coord) (v : Vol) (ops : List Op) (w : VStep) (hp : v.geom.Pos)
+    (hok : ChanOk v) (hs : ∀ op ∈ ops, op.isWithArray = false) (h : runHistory coord v ops = .ok w) :
+    ChanOk w.1 ∧ ∀ c, c.length = w.1.cshape.length → ((historyChanSrc coord v ops c).length = v.cshape.length ∧
+      ∀ l ∈ labels w.1 c, l ∈ labels v (historyChanSrc coord v ops c)) :=
+  runHistory_labels ops hp hok hs h
+
 /-! ## argument handling (bridges, T9o) -/
 
 /-- **Bridge (T9o)**: on every argument of the enumerated domains the hand-written argument handling of the model gives
@@ -853,6 +867,7 @@ theorem getitem_refuses_foreign_items (g : Geom) (items : List Item) :
   ⟨fun _ h => getitemG_no_foreign AxMap.size h, fun rest hl => getitemG_foreign_first AxMap.size g rest hl⟩
 
 /-! ## non-vacuity (round 2) -/
+example : ChanOk v0 ∧ labels v0 [1, 2] = [(0, 1), (1, 2)] := ⟨⟨rfl, by decide⟩, by decide +kernel⟩
 example : (match getitemG AxMap.size g0 [.int 1, .foreign] with | .error e => e == .type | .ok _ => false) = true ∧
     (match getitemG AxMap.size g0 [.int 7, .foreign] with | .error e => e == .index | .ok _ => false) = true := by
   decide +kernel
